@@ -92,7 +92,7 @@ fork_history!(c04_nodata_first_at, true, 1, false);
 fork_history!(c04_nodata_last_above, false, 2, false);
 //@ id=C04 tier=thorough name=c04_nodata_last_at timeout=1800 role=fork_nodata bound=header-only-competitor,key-after-active,occupied-height
 fork_history!(c04_nodata_last_at, false, 1, false);
-//@ id=C04 tier=thorough name=c04_nodata_first_above timeout=1800 role=fork_nodata bound=header-only-competitor,key-before-active,above-the-tip
+//@ id=C04 tier=thorough name=c04_nodata_first_above timeout=1800 role=fork_nodata bound=header-only-competitor,key-before-active,above-the-tip mem=24
 fork_history!(c04_nodata_first_above, true, 2, false);
 //@ id=C04 tier=quick name=c04_data_first_at timeout=1800 role=fork_data_before_at bound=data-bearing-competitor(stale/failed/reorged-out),key-before-active,occupied-height
 fork_history!(c04_data_first_at, true, 1, true);
